@@ -5,9 +5,11 @@ matcher that does not touch the counters), the state after a line is the left-to
 the components' effects (CORE), the counter functions report the loop's counters, push/pop are a
 stack.  Tie to /repo: the same typed CORE csvpaths as C01 (every program writes variables: plain
 assignments of numeric/string expressions incl. earlier variables of the same line, push/pop
-stacks fed with counters and values, when/do) are run by the real CsvPath; the final plain
-variables, every stack (a per-line history), scan_count and match_count are compared with the
-CORE model by the Coq kernel."""
+stacks fed with counters and values, when/do, the bookkeeping functions tally/first/every/
+counter/sum/subtotal, count(), tracking-keyed assignments and reads; some programs read no
+numeric cell and scan from line 0) are run by the real CsvPath; the final plain variables, every
+stack (a per-line history), every dictionary (tracking-keyed) variable in insertion order,
+scan_count and match_count are compared with the CORE model by the Coq kernel."""
 import c01
 import core
 from common import known_open
@@ -49,11 +51,14 @@ def run(ctx):
     nontriv = {o["text"] + repr(j[1]) for j, o in zip(jobs, res) if not o["exc"] and any(isinstance(v, list) and len(set(map(repr, v))) >= 2 for v in o["vars"].values())}
     ctx.coverage.update({
         "evaluations": len(jobs), "distinct_nontrivial": len(nontriv),
-        "rule": "the typed CORE generator of C01 (see its rule): programs assign numeric and string expressions to variables (also reading variables written earlier on the same line), push "
+        "rule": "the typed CORE generator of C01 (see its rule): 30% of components are tally(#h)/first.n(#h)/every.n(#h,k)/counter.n(k)/sum.n(e)/subtotal.n(#h,e)/@d.key = e (also as when/do actions), count() and @d.key "
+                "appear inside expressions, 20% of programs read no numeric cell and scan from line 0 over files whose header cells recur in later rows; programs assign numeric and string expressions to variables (also reading variables written earlier on the same line), push "
                 "counters/values on stacks, pop them, guard assignments with when/do; compared: final plain variables (value and Python type int/float/str/None), every stack in order, "
                 "scan_count, match_count. Non-trivial = some stack received >= 2 different values.",
         "samples": [core.describe(jobs[1], res[1])],
         "programs_writing_variables": sum(1 for o in res if not o["exc"] and o["vars"]),
+        "programs_with_dictionary_variables": sum(1 for o in res if not o["exc"] and any(isinstance(v, dict) for v in o["vars"].values())),
+        "programs_scanning_line_0": sum(1 for j in jobs if j[0].get("textonly")),
         "traces_validated_against_impl": len(jobs) - len(clean_bad),
         "correspondence": f"clean CORE model == implementation on {len(jobs) - len(clean_bad)}/{len(jobs)} runs; explained by pop: {len(d4)}, strcmp: {len(d2)}, lt: {len(d1)}, unexplained: {len(other)}",
     })
